@@ -184,8 +184,42 @@ pub struct Pipeline {
     pub extra: String,
 }
 
+/// A piece of templated top-level text: literal text or a renamable identifier.
+#[derive(Clone, Debug)]
+pub enum Frag {
+    T(String),
+    N(Name),
+}
+
+#[derive(Clone, Debug)]
+pub struct SceneResource {
+    pub res: usize,
+    /// kind label, e.g. "Texture2D"
+    pub kind: &'static str,
+}
+
+#[derive(Clone, Debug, Default)]
+pub struct SceneInfo {
+    /// per pipeline: (pipeline name, stage kinds in order, entry function names, thread group size of the compute-like stages)
+    pub pipelines: Vec<ScenePipeline>,
+    /// reader function name -> resource indices it touches (directly)
+    pub readers: Vec<(Name, Vec<usize>)>,
+}
+
+#[derive(Clone, Debug)]
+pub struct ScenePipeline {
+    pub name: Name,
+    pub kind: &'static str,
+    pub stages: Vec<(&'static str, Name)>,
+    pub numthreads: Option<(u32, u32, u32)>,
+    /// resources reachable from the entry points (indices into prog.resources)
+    pub reachable: Vec<usize>,
+    pub default_group: Option<u32>,
+}
+
 #[derive(Clone, Debug)]
 pub enum Item {
+    Raw(usize),
     Struct(usize),
     Enum(usize),
     Global(usize),
@@ -208,6 +242,8 @@ pub struct Prog {
     pub items: Vec<Item>,
     /// namespace path (names) of each function, for qualified calls
     pub func_ns: Vec<Vec<Name>>,
+    pub raws: Vec<Vec<Frag>>,
+    pub scene: SceneInfo,
 }
 
 #[derive(Clone, Debug)]
@@ -233,6 +269,7 @@ pub struct Profile {
     pub namespaces: bool,
     pub resources: bool,
     pub pipelines: bool,
+    pub pipeline_range: (usize, usize),
     pub max_funcs: usize,
     pub expr_depth: u32,
     pub stmt_depth: u32,
@@ -263,6 +300,7 @@ impl Profile {
             namespaces: false,
             resources: false,
             pipelines: false,
+            pipeline_range: (1, 3),
             max_funcs: 7,
             expr_depth: 5,
             stmt_depth: 3,
@@ -273,7 +311,7 @@ impl Profile {
         Profile { double: false, msl: true, ..Profile::exec_hlsl() }
     }
     pub fn full() -> Profile {
-        Profile { namespaces: true, resources: true, pipelines: true, half: false, ..Profile::exec_hlsl() }
+        Profile { namespaces: true, resources: true, pipelines: true, half: false, double: false, msl: true, max_funcs: 3, ..Profile::exec_hlsl() }
     }
 }
 
@@ -1527,8 +1565,280 @@ impl<'a> Gen<'a> {
                 break;
             }
         }
+        if self.prof.pipelines {
+            let (lo, hi) = self.prof.pipeline_range;
+            self.gen_scene(lo, hi);
+        }
         let d = self.diverted;
         (self.prog, d)
+    }
+}
+
+
+// ---------------------------------------------------------------------------------------------
+// resources, entry points and pipelines (the "scene" layer on top of the executable functions)
+
+pub const RES_KINDS: &[(&str, &str)] = &[
+    // (kind label, declared type)
+    ("Texture2D", "Texture2D<float4>"),
+    ("Texture2DArray", "Texture2DArray<float4>"),
+    ("Texture3D", "Texture3D<float4>"),
+    ("TextureCube", "TextureCube<float4>"),
+    ("RWTexture2D", "RWTexture2D<float4>"),
+    ("RWTexture3D", "RWTexture3D<float4>"),
+    ("Buffer", "Buffer<float4>"),
+    ("RWBuffer", "RWBuffer<float4>"),
+    ("ByteAddressBuffer", "ByteAddressBuffer"),
+    ("RWByteAddressBuffer", "RWByteAddressBuffer"),
+    ("StructuredBuffer", "StructuredBuffer<SR>"),
+    ("RWStructuredBuffer", "RWStructuredBuffer<SR>"),
+    ("ConstantBuffer", "ConstantBuffer<SR>"),
+    ("cbuffer", "cbuffer"),
+    ("SamplerState", "SamplerState"),
+    ("SamplerComparisonState", "SamplerComparisonState"),
+    ("StaticSampler", "SamplerState"),
+    ("BufferAddress", "BufferAddress"),
+    ("RWBufferAddress", "RWBufferAddress"),
+    ("RaytracingAccelerationStructure", "RaytracingAccelerationStructure"),
+];
+
+impl<'a> Gen<'a> {
+    fn raw(&mut self, frags: Vec<Frag>) {
+        let i = self.prog.raws.len();
+        self.prog.raws.push(frags);
+        self.prog.items.push(Item::Raw(i));
+    }
+
+    /// float4-valued expression text that touches resource `ri` (as fragments)
+    fn usage(&mut self, ri: usize, sr: Name, srv: Name) -> Vec<Frag> {
+        let _ = sr;
+        let r = self.prog.resources[ri].clone();
+        let idx = if r.array.is_some() { "[1]" } else { "" };
+        let n = Frag::N(r.name);
+        let t = |s: &str| Frag::T(s.to_string());
+        match r.kind {
+            "Texture2D" => vec![n, t(idx), t(".Load(int3(0, 0, 0))")],
+            "Texture2DArray" | "Texture3D" => vec![n, t(idx), t(".Load(int4(0, 0, 0, 0))")],
+            "RWTexture2D" => vec![n, t(idx), t("[uint2(0, 0)]")],
+            "RWTexture3D" => vec![n, t(idx), t("[uint3(0, 0, 0)]")],
+            "Buffer" => vec![n, t(idx), t(".Load(0)")],
+            "RWBuffer" => vec![n, t(idx), t("[0]")],
+            "ByteAddressBuffer" | "RWByteAddressBuffer" => vec![t("asfloat("), n, t(idx), t(".Load4(0))")],
+            "StructuredBuffer" | "RWStructuredBuffer" => vec![n, t(idx), t("[0]."), Frag::N(srv)],
+            "ConstantBuffer" => vec![n, t(idx), t("."), Frag::N(srv)],
+            "cbuffer" => vec![Frag::N(r.cbuffer_members[0].0)],
+            _ => vec![t("float4(0.0, 0.0, 0.0, 0.0)")],
+        }
+    }
+
+    /// Resources, reader functions, entry points and pipelines.
+    pub fn gen_scene(&mut self, min_pipelines: usize, max_pipelines: usize) {
+        let t = |s: &str| Frag::T(s.to_string());
+        // element struct for structured / constant buffers
+        let sr = self.fresh("SR");
+        let srv = self.fresh("v");
+        self.raw(vec![t("struct "), Frag::N(sr), t(" {\n    float4 "), Frag::N(srv), t(";\n};\n\n")]);
+        // resources
+        let nres = 1 + self.pick(10);
+        for k in 0..nres {
+            let (kind, ty_text) = RES_KINDS[self.pick(RES_KINDS.len())];
+            let name = self.fresh("res");
+            let can_array = !matches!(kind, "cbuffer" | "StaticSampler" | "BufferAddress" | "RWBufferAddress");
+            let array = if can_array && self.pick(4) == 0 { Some(2 + self.pick(3) as u32) } else { None };
+            let group = if self.pick(3) == 0 { Some(self.pick(3) as u32) } else { None };
+            let mut prefix = String::new();
+            let mut suffix = String::new();
+            if let Some(g) = group {
+                match if kind == "StaticSampler" { 0 } else { self.pick(3) } {
+                    0 => prefix = format!("[[rssl::bind_group({})]] ", g),
+                    1 => suffix = format!(" : register(space{})", g),
+                    _ => prefix = format!("[[vk::binding({}, {})]] ", 20 + k, g),
+                }
+            }
+            let ty_text = ty_text.replace("SR", &self.prog.names[sr]);
+            let mut members = Vec::new();
+            if kind == "cbuffer" {
+                members.push((self.fresh("cbm"), Ty::V(Sc::Float, 4)));
+                if self.pick(2) == 0 {
+                    members.push((self.fresh("cbm"), Ty::S(Sc::UInt)));
+                }
+            }
+            let idx = self.prog.resources.len();
+            self.prog.resources.push(Resource {
+                name,
+                ty_text,
+                kind,
+                array,
+                prefix,
+                suffix,
+                cbuffer_members: members,
+                static_sampler: kind == "StaticSampler",
+                bindless: false,
+                group,
+            });
+            self.prog.items.push(Item::Resource(idx));
+        }
+        // the struct name inside ty_text is literal text: keep a marker so renaming can fix it up
+        // reader functions: each touches 1-3 resources and may call one executable function
+        let nreaders = 1 + self.pick(4);
+        let mut readers: Vec<(Name, Vec<usize>)> = Vec::new();
+        for _ in 0..nreaders {
+            let fname = self.fresh("read");
+            let mut touched = Vec::new();
+            let mut frags = vec![t("float4 "), Frag::N(fname), t("() {\n    float4 acc = float4(0.0, 0.0, 0.0, 0.0);\n")];
+            for _ in 0..(1 + self.pick(3)) {
+                let ri = self.pick(self.prog.resources.len());
+                touched.push(ri);
+                let r = self.prog.resources[ri].clone();
+                match r.kind {
+                    "SamplerState" | "SamplerComparisonState" | "StaticSampler" | "BufferAddress" | "RWBufferAddress" | "RaytracingAccelerationStructure" | "TextureCube" => {
+                        frags.push(t("    "));
+                        frags.push(Frag::N(r.name));
+                        frags.push(t(";\n"));
+                    }
+                    _ => {
+                        frags.push(t("    acc += "));
+                        frags.extend(self.usage(ri, sr, srv));
+                        frags.push(t(";\n"));
+                    }
+                }
+            }
+            // chain to an earlier reader half the time (transitive reachability)
+            if !readers.is_empty() && self.pick(2) == 0 {
+                let (other, rs) = readers[self.pick(readers.len())].clone();
+                frags.push(t("    acc += "));
+                frags.push(Frag::N(other));
+                frags.push(t("();\n"));
+                touched.extend(rs);
+            }
+            frags.push(t("    return acc;\n}\n\n"));
+            self.raw(frags);
+            touched.sort();
+            touched.dedup();
+            readers.push((fname, touched));
+        }
+        self.prog.scene.readers = readers.clone();
+        // pipelines
+        let np = min_pipelines + self.pick(max_pipelines - min_pipelines + 1);
+        for _ in 0..np {
+            let kind = ["compute", "vertex_pixel", "compute", "mesh_pixel", "task_mesh", "vertex_pixel"][self.pick(6)];
+            let pname = self.fresh("Pipe");
+            let default_group = if self.pick(3) == 0 { Some(self.pick(3) as u32) } else { None };
+            let mut reachable: Vec<usize> = Vec::new();
+            let mut body = |g: &mut Gen, reachable: &mut Vec<usize>| -> Vec<Frag> {
+                let mut f = Vec::new();
+                for _ in 0..(1 + g.pick(2)) {
+                    let (rn, rs) = readers[g.pick(readers.len())].clone();
+                    f.push(Frag::T("    sink += ".into()));
+                    f.push(Frag::N(rn));
+                    f.push(Frag::T("();\n".into()));
+                    reachable.extend(rs);
+                }
+                f
+            };
+            let nt = [(1u32, 1u32, 1u32), (8, 8, 1), (64, 1, 1), (4, 2, 3)][self.pick(4)];
+            let mut stages: Vec<(&'static str, Name)> = Vec::new();
+            let mut numthreads = None;
+            match kind {
+                "compute" => {
+                    let e = self.fresh("cs_main");
+                    let mut f = vec![t(&format!("[numthreads({}, {}, {})]\nvoid ", nt.0, nt.1, nt.2)), Frag::N(e), t("(uint3 dtid : SV_DispatchThreadID) {\n    float4 sink = float4(0.0, 0.0, 0.0, 0.0);\n")];
+                    f.extend(body(self, &mut reachable));
+                    f.push(t("}\n\n"));
+                    self.raw(f);
+                    stages.push(("ComputeShader", e));
+                    numthreads = Some(nt);
+                }
+                "vertex_pixel" => {
+                    let v = self.fresh("vs_main");
+                    let p = self.fresh("ps_main");
+                    let mut f = vec![t("void "), Frag::N(v), t("(uint vid : SV_VertexID, out float4 o_pos : SV_Position, out float2 o_uv : TEXCOORD) {\n    float4 sink = float4(0.0, 0.0, 0.0, 0.0);\n")];
+                    f.extend(body(self, &mut reachable));
+                    f.push(t("    o_pos = sink;\n    o_uv = sink.xy;\n}\n\n"));
+                    self.raw(f);
+                    let mut f = vec![t("float4 "), Frag::N(p), t("(float2 i_uv : TEXCOORD) : SV_Target0 {\n    float4 sink = float4(i_uv, 0.0, 0.0);\n")];
+                    f.extend(body(self, &mut reachable));
+                    f.push(t("    return sink;\n}\n\n"));
+                    self.raw(f);
+                    stages.push(("VertexShader", v));
+                    stages.push(("PixelShader", p));
+                }
+                "mesh_pixel" => {
+                    let va = self.fresh("MeshVertex");
+                    let m = self.fresh("ms_main");
+                    let p = self.fresh("ps_main");
+                    self.raw(vec![t("struct "), Frag::N(va), t(" {\n    float4 position : SV_Position;\n    float2 texcoord : TEXCOORD;\n};\n\n")]);
+                    let mut f = vec![
+                        t(&format!("[numthreads({}, 1, 1)]\n[outputtopology(\"triangle\")]\nvoid ", nt.0.max(1))),
+                        Frag::N(m),
+                        t("(uint3 dtid : SV_DispatchThreadID, out vertices "),
+                        Frag::N(va),
+                        t(" o_vertices[64], out indices uint3 o_triangles[32]) {\n    float4 sink = float4(0.0, 0.0, 0.0, 0.0);\n"),
+                    ];
+                    f.extend(body(self, &mut reachable));
+                    f.push(t("    SetMeshOutputCounts(64, 32);\n    "));
+                    f.push(Frag::N(va));
+                    f.push(t(" vertex;\n    vertex.position = sink;\n    vertex.texcoord = sink.xy;\n    o_vertices[dtid.x] = vertex;\n    o_triangles[dtid.x] = uint3(0, 1, 2);\n}\n\n"));
+                    self.raw(f);
+                    let mut f = vec![t("float4 "), Frag::N(p), t("(float2 i_texcoord : TEXCOORD) : SV_Target0 {\n    float4 sink = float4(i_texcoord, 0.0, 0.0);\n")];
+                    f.extend(body(self, &mut reachable));
+                    f.push(t("    return sink;\n}\n\n"));
+                    self.raw(f);
+                    stages.push(("MeshShader", m));
+                    stages.push(("PixelShader", p));
+                    numthreads = Some((nt.0.max(1), 1, 1));
+                }
+                _ => {
+                    let pl = self.fresh("Payload");
+                    let va = self.fresh("MeshVertex");
+                    let lds = self.fresh("lds_payload");
+                    let tk = self.fresh("ts_main");
+                    let m = self.fresh("ms_main");
+                    self.raw(vec![
+                        t("struct "),
+                        Frag::N(pl),
+                        t(" {\n    uint start_location;\n};\n\nstruct "),
+                        Frag::N(va),
+                        t(" {\n    float4 position : SV_Position;\n};\n\ngroupshared "),
+                        Frag::N(pl),
+                        t(" "),
+                        Frag::N(lds),
+                        t(";\n\n"),
+                    ]);
+                    let mut f = vec![t("[numthreads(64, 1, 1)]\nvoid "), Frag::N(tk), t("(uint3 dtid : SV_DispatchThreadID) {\n    float4 sink = float4(0.0, 0.0, 0.0, 0.0);\n")];
+                    f.extend(body(self, &mut reachable));
+                    f.push(t("    "));
+                    f.push(Frag::N(lds));
+                    f.push(t(".start_location = dtid.x;\n    DispatchMesh(4u, 1u, 1u, "));
+                    f.push(Frag::N(lds));
+                    f.push(t(");\n}\n\n"));
+                    self.raw(f);
+                    let mut f = vec![
+                        t("[numthreads(64, 1, 1)]\n[outputtopology(\"triangle\")]\nvoid "),
+                        Frag::N(m),
+                        t("(uint3 dtid : SV_DispatchThreadID, in payload "),
+                        Frag::N(pl),
+                        t(" data, out vertices "),
+                        Frag::N(va),
+                        t(" o_vertices[64], out indices uint3 o_triangles[64]) {\n    float4 sink = float4(0.0, 0.0, 0.0, 0.0);\n"),
+                    ];
+                    f.extend(body(self, &mut reachable));
+                    f.push(t("    SetMeshOutputCounts(64, 64);\n    "));
+                    f.push(Frag::N(va));
+                    f.push(t(" vertex;\n    vertex.position = float4(data.start_location, 0, 0, 1) + sink;\n    o_vertices[dtid.x] = vertex;\n    o_triangles[dtid.x] = uint3(0, 1, 2);\n}\n\n"));
+                    self.raw(f);
+                    stages.push(("TaskShader", tk));
+                    stages.push(("MeshShader", m));
+                    numthreads = Some((64, 1, 1));
+                }
+            }
+            reachable.sort();
+            reachable.dedup();
+            let idx = self.prog.pipelines.len();
+            self.prog.pipelines.push(Pipeline { name: pname, stages: stages.clone(), default_group, extra: String::new() });
+            self.prog.items.push(Item::Pipeline(idx));
+            self.prog.scene.pipelines.push(ScenePipeline { name: pname, kind, stages, numthreads, reachable, default_group });
+        }
     }
 }
 
@@ -1907,6 +2217,14 @@ impl Renderer<'_> {
         let mut lvl = 0;
         for item in &self.prog.items {
             match item {
+                Item::Raw(i) => {
+                    for f in &self.prog.raws[*i] {
+                        match f {
+                            Frag::T(t) => out.push_str(t),
+                            Frag::N(n) => out.push_str(self.n(*n)),
+                        }
+                    }
+                }
                 Item::Struct(i) => {
                     let s = &self.prog.structs[*i];
                     Self::ind(&mut out, lvl);
